@@ -1035,6 +1035,16 @@ def gt_cycle(ctx: Ctx) -> RuleResult:
             handlers = [h for h in n.handlers if h.type is not None and "NoCycle" in ast.unparse(h.type)]
             if calls:
                 found = True
+                # the search covers the WHOLE graph: networkx's find_cycle(G, source=..) only explores what is reachable from the
+                # given sources - a cycle has no root inside it, so a search started at the roots misses a cycle no root leads to
+                for c_ in calls:
+                    src_ = c_.args[1] if len(c_.args) > 1 else next((k.value for k in c_.keywords if k.arg == "source"), None)
+                    whole = src_ is None or (isinstance(src_, ast.Constant) and src_.value is None)
+                    r.ob(whole, {"cycle search restricted to": None if whole else norm_src(src_)})
+                    if not whole:
+                        r.violate("DiGraphEx.from_exec_nodes: the cycle search only explores what is reachable from given sources", fe.loc(c_),
+                                  "a cycle that no explored source leads to is accepted at build time: the DAG can be called and the scheduler "
+                                  "then spins forever (graph not empty, nothing runnable, nothing in flight)", norm_src(c_))
                 ok = bool(raises) and bool(handlers) and all(isinstance(b, ast.Pass) for h in handlers for b in h.body) \
                     and len(n.handlers) == len(handlers)
                 r.ob(ok, {"cycle test": "find_cycle -> raise; only NetworkXNoCycle is swallowed"})
@@ -1588,6 +1598,28 @@ def gt_debuginc(ctx: Ctx) -> RuleResult:
         return out
 
     exprs = [x for t in tests for x in expand(t)]
+    # counting form: "number of selected predecessors seen == in-degree".  Exact only when the counter starts from zero in every pass of
+    # the fix-point loop; a counter that lives across passes counts the same edge again and reaches the in-degree with a parent missing
+    for t in tests:
+        if isinstance(t, ast.Compare) and len(t.ops) == 1 and isinstance(t.ops[0], (ast.Eq, ast.GtE)):
+            sides = [t.left, t.comparators[0]]
+            cnt = next((x for x in sides if isinstance(x, ast.Subscript) and isinstance(x.value, ast.Name)), None)
+            deg = next((x for x in sides if isinstance(x, ast.Call) and ("in_degree" in norm_src(x.func) or "predecessors" in norm_src(x))), None)
+            if cnt is None or deg is None:
+                continue
+            cname = cnt.value.id
+            loops_ = [n for n in iter_own_nodes(f.node) if isinstance(n, ast.While)]
+            inits = [n for n in iter_own_nodes(f.node) if isinstance(n, (ast.Assign, ast.AnnAssign))
+                     and dotted(n.targets[0] if isinstance(n, ast.Assign) else n.target) == cname]
+            r.require(bool(inits) and bool(loops_), "include_debug_nodes: counting form without a recognisable counter / fix-point loop")
+            inside = all(any(x is i_ for x in own_walk(loops_[0])) for i_ in inits)
+            r.ob(inside, {"inclusion by counting": norm_src(t), "counter reset in every pass": inside})
+            if not inside:
+                r.violate("DiGraphEx.include_debug_nodes: the per-candidate count of selected predecessors is kept across the passes of the "
+                          "fix-point loop", f.loc(inits[0]),
+                          "a second pass counts the same selected parent again: a debug node with a parent outside the selection reaches its "
+                          "in-degree and is pulled into the run, where it reads the missing input as None", norm_src(t))
+            return r
     pred_exprs = [x for x in exprs if "predecessors" in norm_src(x)]
     r.require(len(pred_exprs) >= 1, "include_debug_nodes: no test on the predecessors of the candidate guards its inclusion")
     filtered = [c for x in pred_exprs for c in ast.walk(x) if isinstance(c, (ast.GeneratorExp, ast.ListComp, ast.SetComp))
